@@ -150,6 +150,7 @@ def handle(run, results, build, what='entries differ from the oracle', signature
             run.harness_error('replay of %s crashed: %s: %s' % (res['group'], type(e).__name__, e))
             continue
         fams = {}
+        generic = None
         for sres in sats:
             fams.setdefault(sres['name'].split('[')[0], []).append(sres['name'])
         for fam, names in sorted(fams.items()):
@@ -157,6 +158,14 @@ def handle(run, results, build, what='entries differ from the oracle', signature
                 # characterisation of a recorded finding: only meaningful when the property obligation itself fails
                 continue
             fbad = [b for b in bad if b[0].split('[')[0] == fam]
+            if not fbad:
+                # the point of the FIRST sat obligation may be a special one for this family: the generic seeded point decides
+                if generic is None:
+                    try:
+                        generic = concrete_replay(build, dict(cfg, seed=run.seed + 1), {})
+                    except Exception:
+                        generic = ([], info)
+                fbad = [b for b in generic[0] if b[0].split('[')[0] == fam]
             if not fbad:
                 run.harness_error('sat obligations %s of %s %s did not reproduce in the exact-rational replay' % (fam, res['group'], cfg))
                 continue
